@@ -61,6 +61,10 @@ def run(ctx):
     for t in tabs:
         g = LiveGen(t, rng)
         pool_d += [g.string(rng.choice([1, 2]), rng.choice([8, 25, 60])) for _ in range(25)]
+    # refused strings whose error is met deep inside nested branches (whatever a call had set up on the way in, it must
+    # be gone after the exception), and a very long one
+    pool_d += ["[C][Branch1][C]" * d + "[Foo]" + "[C]" * 3 for d in (40, 150, 400)]
+    pool_d += ["[S][=Branch1][P]" * 300 + "[Branch9]", "[C][C][Ring1][C]" * 50 + "[CH9]"]
     pool_e = []
     for _ in range(40):
         m = random_tree_mol(rng, rng.choice([4, 8, 16]), p_ring=0.2, p_bracket=0.3)
@@ -134,6 +138,11 @@ def run(ctx):
             if s2 != s1:
                 probes += [["e", s1, {"strict": False}], ["e", s2, {"strict": False}]]
                 ctx.count("twin_spelling_probes")
+            if h % 8 == 3:
+                # scale: a molecule with 100 or more ring bonds (whatever the writer does with label 100 - finding F1 - it
+                # does the same in a fresh interpreter)
+                probes.append(["d", rng.choice(["[C][C][C][Ring1][Ring1]", "[N][C][C][C][Ring1][Ring2]"]) * rng.choice([100, 120, 160]), {}])
+                ctx.count("probes_with_100_or_more_rings")
             res = [call(sf, k, x, fl) for k, x, fl in probes]
             again = [call(sf, k, x, fl) for k, x, fl in probes]
             payload = {"history": list(M.log[-80:]), "table": table}
@@ -162,7 +171,11 @@ def run(ctx):
             ctx.see("hashseeds", z.hashseed)
             fresh_d = z.run(table, [p for p in probes if p[0] == "d"], isolate=True)
             fresh_e = z.run(None, [p for p in probes if p[0] == "e"], isolate=True)
-            fresh = fresh_d + fresh_e
+            fresh = [None] * len(probes)
+            for i_, r_ in zip([i for i, p in enumerate(probes) if p[0] == "d"], fresh_d):
+                fresh[i_] = r_
+            for i_, r_ in zip([i for i, p in enumerate(probes) if p[0] == "e"], fresh_e):
+                fresh[i_] = r_
             for p, a, b in zip(probes, res, fresh):
                 ctx.count("probes_compared_fresh")
                 if a != b:
